@@ -282,8 +282,7 @@ def case_mass_roundtrip(log, order):
             a_low = _apply(A, dtab, L, order)
             avals = {n: A for n in (3, 4, 5, 6)}
             avals[nfl] = a_low
-            xif2 = SR.var("xif2")
-            assume(xif2, ">0")
+            xif2 = 1.0  # (how evolve places its walls for xif2 != 1 / ratio values != 1 is C18's evolve.scale)
             rp = (MOD, "replay_mass_roundtrip", {"order": order, "nfl": nfl})
             for tag, (n1, n2) in (("up then down", (nfl, nfl + 1)), ("down then up", (nfl + 1, nfl))):
                 m1, _sc, _st = K._run_evolve(mm, order, n1, n2, avals, Ls, xif2, SR(1))
@@ -493,7 +492,7 @@ def main():
                   "exact inverse: identity in a_s as a plain symbol through the shim's adjugate inverse (n <= 3)",
                   "decoupling: orders 2-4 (loop bound of Couplings.a / msbar_masses.evolve), L symbolic, nf real in [3,5]; tables generalised to free "
                   "symbols on the support of the real tables (c[1,0] = 0 for the coupling, c[1,*] = 0 for the mass) and the real tables themselves"]
-    chk.bounds.append("mass round trip through the real msbar_masses.evolve (orders 3, 4; thresholds 3|4, 4|5, 5|6; symbolic L, xif2): the stand-in coupling object returns "
+    chk.bounds.append("mass round trip through the real msbar_masses.evolve (orders 3, 4; thresholds 3|4, 4|5, 5|6; symbolic L): the stand-in coupling object returns "
                       "a_s^(nf+1) = A and a_s^(nf) = A*zeta_g^2(A,L) (real MSBAR downward table), m^2_out/m^2_in - 1 = O(A^order) in both orders of traversal")
     chk.out_of_claim = ["floating-point conditioning of numpy.linalg.inv (LAPACK) -- replaced by the exact adjugate",
                         "matrix sizes other than 2 and 3; complex entries are covered because the identities are polynomial (real symbols suffice)",
